@@ -5,7 +5,7 @@
              (plan <optype> (fetches (fetch id "ds" optype (roots (r "T" "f" rule)..))..) (tree <pnode>) (gocoords (c "ds" "T" "f")..)))
      (c14 run (id ..) (mode pre|post) (optype ..) (d "T.f,..") (denied (p ..)..) (gw <json>|(absent)) (gwerrs (p ..)..)
               (ref <json>|(skip)) (referrs n) (seen (c "T" "f")..) (asked ..) (objasked ..)
-              (reqs (rq "ds" optype (roots (r "T" "f" protected denied)..))..)
+              (reqs (rq "ds" optype (roots (r "T" "f" protected denied)..) planroots)..)
               (gates (g id "ds" optype (roots (r "T" "f" rule)..) sent eligible unique)..)
               (forbidden "s"..) [(resp "bytes")] (flags (sentinel b) (goequal b) (mixed b) (merged b)) (sum ..))
      (c14 run (id ..) .. (execerror "..")) | (c14 op|run (id ..) (laberror "..")) | (c14 skip ..)
@@ -140,6 +140,7 @@ let handle (x : sexp) : (string * string) list =
     let flags = find "flags" items and sum = find "sum" items in
     let flag name = (match find name flags with [b] -> sbool b | _ -> raise (Sexp_error name)) in
     let show_paths ps = String.concat " " (List.map (fun p -> String.concat "." (List.map (function PName k -> string_of_bytes k | PIdx i -> string_of_int (int_of_n i)) p)) ps) in
+    let hidden = (match find_opt "hidden" items with Some (_ :: _ as l) -> "/hidden-input[" ^ String.concat "," (List.map str l) ^ "]" | _ -> "") in
     (* 1 denied_absent *)
     if not (denied_absent_b gw denied) then begin
       let bad = List.filter (fun p -> not (denied_absent_b gw [p])) denied in
@@ -155,14 +156,24 @@ let handle (x : sexp) : (string * string) list =
        let rf = json_of j in
        let eq = json_eqb (jsort gw) (jsort rf) in
        if eq <> flag "goequal" then add "mismatch" (Printf.sprintf "corr:C14/json_eqb go=%b coq=%b%s" (flag "goequal") eq tail);
-       if not eq then add "specfail" ("propagates_like_null the response differs from the reference execution in which the denied positions fail" ^ tail)
+       if not eq then add "specfail" ("propagates_like_null" ^ hidden ^ " the response differs from the reference execution in which the denied positions fail" ^ tail)
        else if num items "referrs" > 0 && num sum "errors" = 0 then
          add "specfail" ("propagates_like_null/errors the reference reports errors, the gateway none" ^ tail)
      | _ -> raise (Sexp_error "ref"));
     (* 4 allowed_untouched *)
-    (match !cur_base with
-     | Some base -> if not (untouched_b base gw [] denied) then add "specfail" ("allowed_untouched a position outside the denied ones differs from the run without denials" ^ tail)
+    let base_opt = (match find_opt "maskedbase" items with
+        | Some [L [A "absent"]] -> None
+        | Some [j] -> Some (json_of j)
+        | _ -> !cur_base) in
+    (match base_opt with
+     | Some base -> if not (untouched_b base gw [] denied) then add "specfail" ("allowed_untouched" ^ hidden ^ " a position outside the denied ones differs from the run without denials" ^ tail)
      | None -> ());
+    (* 4b requires_input_intact: an allowed field whose @requires input is denied still resolves *)
+    (match find_opt "starved" items with
+     | Some (_ :: _ as l) ->
+       add "specfail" (Printf.sprintf "requires_input_intact allowed field(s) %s changed because the fetch of their denied @requires input was skipped%s"
+                         (String.concat " " (List.map str l)) tail)
+     | _ -> ());
     (* 5 sentinel_absent *)
     let forbidden = List.map str (find "forbidden" items) in
     let native = (match find_opt "resp" items with
@@ -185,13 +196,14 @@ let handle (x : sexp) : (string * string) list =
     end;
     (* 7 fetch_gate on the request log *)
     List.iter (function
-        | L [A "rq"; S ds; A op; L (A "roots" :: rs)] ->
+        | L [A "rq"; S ds; A op; L (A "roots" :: rs); A planroots] ->
           let roots = List.map (function L [A "r"; S _; S _; p; dn] -> (sbool p, sbool dn) | _ -> raise (Sexp_error "rq root")) rs in
           let names = String.concat " " (List.map (function L [A "r"; S t; S f; _; dn] -> t ^ "." ^ f ^ (if sbool dn then "!" else "") | _ -> "") rs) in
           if mode = "pre" || op <> "query" then
             if not (gate_spec_b (optype_of op) roots true) then
-              add "specfail" (Printf.sprintf "fetch_gate%s a %s request was sent to %s although %s of its root fields [%s] denied%s"
-                                (if mode = "pre" then "" else "/legacy") op ds (if op = "query" then "all" else "one") names tail)
+              add "specfail" (Printf.sprintf "fetch_gate%s%s a %s request was sent to %s although %s of its root fields [%s] denied (FetchInfo.RootFields of the planned fetch: %s)%s"
+                                (if mode = "pre" then "" else "/legacy") (if planroots = "0" then "/no-rootfields" else "")
+                                op ds (if op = "query" then "all" else "one") names planroots tail)
         | _ -> raise (Sexp_error "rq")) (find "reqs" items);
     (* 8 the gate model on the planned fetches *)
     if mode = "pre" then begin
